@@ -9,23 +9,32 @@
 
    What is proved:
    * in EXACT arithmetic (the model instantiated with extended rationals, xq_ops): the
-     full statement, for every matrix (any width, wildcard column arbitrary: finite, -inf,
-     +inf or NaN; constant matrices, i.e. factor 0, included), every window;
-   * for every arm of the dispatcher and the two stand-alone pipelines: the u8 score
-     matrix is the same, and its cell for position i is the saturating sum of the
-     window's discrete cells (u8 arithmetic is exact, so this holds for the code's own
-     numbers);
+     full statement, for every matrix (any alphabet size K, any width, wildcard column arbitrary: finite,
+     -inf, +inf or NaN; constant matrices, i.e. factor 0, included), every window
+     (C08_discrete_overestimates, C08_threshold_transfer);
+   * from the byte a BACKEND writes at index i of its score matrix to window i:
+       - the generic kernel (trait default: Pipeline::generic(), Pipeline::sse2(), the Generic / Sse2 arms of the
+         dispatcher), ANY alphabet size K (Protein K = 21 included) and ANY number of columns C:
+         C08_generic_backend_overestimates (exact), C08_generic_backend_overestimates_f32_partial (binary32);
+       - the AVX2 kernel and the three arms of the x86 dispatcher: K <= 16 (the kernel exists for Dna only) and
+         C = 32: C08_backends_overestimate, C08_backends_overestimate_f32_partial.  THIS RESTRICTION (K <= 16, C = 32,
+         arms Generic / Sse2 / Avx2) is inherent to those two statements, not to the property;
+       - the NEON kernel and the arms of the dispatcher on Arm hosts: K <= 16, C = 16 q: C08_arm_hosts_overestimate;
+     all arms return the same score matrix (C08_dispatch_arms_agree, C08_neon_eq_generic); u8 arithmetic is
+     exact, so these hold for the code's own numbers; on a REUSED buffer: C08_scores_history;
    * in BINARY32 arithmetic (what the code computes, f32_ops) the statement is FALSE for
-     ill-conditioned matrices: C08_ieee_refuted.  Proved for binary32: scale is monotone when
+     ill-conditioned matrices: C08_ieee_refuted (known finding F14).  Proved for binary32: scale is monotone when
      the sign bit of the factor is clear (C08_scale_monotone_f32), so the consequence clause
      follows from the main clause (C08_threshold_transfer_f32); to_discrete's factor always has
-     its sign bit clear (C08_factor_sign_clear; before the repair of F14b it could be -0.0).  Not proved: the main clause for binary32
-     under the conditioning predicate [well_conditioned] (checked on every run by the
-     correspondence harness instead). *)
+     its sign bit clear (C08_factor_sign_clear; before the repair of F14b, /repo fd98893, it could be -0.0);
+     the MAIN clause under the conditioning predicate [well_conditioned] plus TWO side conditions (at most
+     16384 rows, cond_A <= 2^126): C08_f32_main_well_conditioned_partial and the `_f32_partial` end-to-end
+     statements.  Without the side conditions / the predicate the binary32 main clause is only checked on
+     every run by the correspondence harness. *)
 From Coq Require Import List ZArith QArith Bool Arith Lia Reals Lra.
 From Flocq Require Import Core BinarySingleNaN.
 From LMBase Require Import Res ListX IEEE.
-From LMDisc Require Import DiscModel DiscSkel GenDiscSkel DiscSkelProofs DiscImplCheck DiscProofs DiscUnscale DiscKernels DiscU8Kernel GenDiscU8 DiscU8Proofs DiscHistory DiscHistoryProofs DiscIEEE DiscImplProofs DiscF32Mono DiscF32Main DiscF32Sum DiscF32Cond DiscF32Zero DiscF32Degenerate DiscF32End DiscF32Sign.
+From LMDisc Require Import DiscModel DiscSkel GenDiscSkel DiscSkelProofs DiscImplCheck DiscProofs DiscUnscale DiscKernels DiscU8Kernel GenDiscU8 DiscU8Proofs DiscHistory DiscHistoryProofs DiscIEEE DiscImplProofs DiscF32Mono DiscF32Main DiscF32Sum DiscF32Cond DiscF32Zero DiscF32Degenerate DiscF32End DiscF32Sign DiscGenericAny.
 Import ListNotations.
 
 (* (1) exact arithmetic: byte score of a window >= byte image of its real score *)
@@ -377,6 +386,73 @@ Theorem C08_zero_factor_cells_f32 :
   forall x o : F32.t, F32.is_finite o = true ->
     disc_cell f32_ops (B754_zero false) o x = if F32.lt o x then 255%Z else 0%Z.
 Proof. exact zero_factor_cell. Qed.
+
+(* (2g) the generic kernel end to end for ANY alphabet size K and ANY number of columns C (Protein, K = 21, on
+   Pipeline::generic() / Pipeline::sse2(); the 16-column layouts): the byte at index i of the score matrix of
+   Score::score_into (trait default) and DiscreteMatrix::score_position are the byte score of window i, which is
+   >= the byte image of the exact real score of position i *)
+Theorem C08_generic_backend_overestimates :
+  forall (K C : nat) (m : list (list xq)) (d : @dmat xq) (s : list nat) (i : nat),
+    (0 < K)%nat -> (0 < C)%nat ->
+    Forall (fun row => length row = K) m ->
+    Forall (fun row => Forall xq_finite (nonwild K row)) m ->
+    to_discrete xq_ops K m = Ok d ->
+    Forall (fun v => (v < K)%nat) s ->
+    (1 <= length m)%nat -> (i + length m <= length s)%nat ->
+    let st := striped K C (configure_wrap_of (length m)) s in
+    exists sc b real,
+      generic_score_u8 C (d_data d) st = Ok sc /\
+      sc_index sc i = Ok b /\
+      disc_score (d_data d) st i = Ok b /\
+      real_score xq_ops m st i = Ok real /\
+      (scale xq_ops d real <= b)%Z.
+Proof. exact generic_backend_overestimates. Qed.
+
+(* its binary32 twin (real score, offset, factor, scale as the code computes them) under the conditioning predicate;
+   `_partial`: the two side conditions M <= 16384 and cond_A <= 2^126 are what is missing *)
+Theorem C08_generic_backend_overestimates_f32_partial :
+  forall (K C : nat) (m : list (list F32.t)) (d : @dmat F32.t) (s : list nat) (i : nat),
+    (0 < K)%nat -> (0 < C)%nat ->
+    Forall (fun row => length row = K) m ->
+    Forall (fun row => Forall (fun x => F32.is_finite x = true) (nonwild K row)) m ->
+    to_discrete f32_ops K m = Ok d ->
+    Forall (fun v => (v < K)%nat) s ->
+    (1 <= length m)%nat -> (i + length m <= length s)%nat ->
+    well_conditioned m (d_factor d) = true ->
+    (Z.of_nat (length m) <= 16384)%Z ->
+    F32.le (cond_A m) (F32.of_Z_exp 1 126) = true ->
+    let st := striped K C (configure_wrap_of (length m)) s in
+    exists sc b real,
+      generic_score_u8 C (d_data d) st = Ok sc /\
+      sc_index sc i = Ok b /\
+      disc_score (d_data d) st i = Ok b /\
+      real_score f32_ops m st i = Ok real /\
+      (scale f32_ops d real <= b)%Z.
+Proof. exact generic_backend_overestimates_f32. Qed.
+
+(* Arm hosts: every kernel the dispatcher can run there (Generic, Neon arms: gen_dispatch_u8_arm) and Pipeline::neon()
+   (gen_pipeline_u8 D4Neon) -- none of these ids is the AVX2 kernel, second statement -- on 16 q columns, K <= 16 *)
+Theorem C08_arm_hosts_overestimate :
+  forall (K q : nat) (m : list (list xq)) (d : @dmat xq) (pads : nat -> list Z) (s : list nat) (id : u8_kernel_id) (i : nat),
+    (0 < K)%nat -> (K <= 16)%nat -> (1 <= q)%nat ->
+    Forall (fun row => length row = K) m ->
+    Forall (fun row => Forall xq_finite (nonwild K row)) m ->
+    to_discrete xq_ops K m = Ok d ->
+    (forall i, 16 <= K + length (pads i))%nat ->
+    Forall (fun v => (v < K)%nat) s ->
+    (1 <= length m)%nat -> (i + length m <= length s)%nat ->
+    id <> UKAvx2Shuffle ->
+    let st := striped K (q * 16) (configure_wrap_of (length m)) s in
+    exists sc b real,
+      run_u8_kernel gen_avx2_u8 gen_neon_u8 id (q * 16) (d_data d) pads st 0 (length (ss_rows st) - ss_wrap st) = Ok sc /\
+      sc_index sc i = Ok b /\
+      real_score xq_ops m st i = Ok real /\
+      (scale xq_ops d real <= b)%Z.
+Proof. exact arm_hosts_overestimate. Qed.
+
+Theorem C08_arm_host_kernels :
+  (forall a : arm4, gen_dispatch_u8_arm a <> UKAvx2Shuffle) /\ gen_pipeline_u8 D4Neon <> UKAvx2Shuffle.
+Proof. exact arm_ids_not_avx2. Qed.
 
 (* (3) binary32: the statement is false for ill-conditioned matrices *)
 Theorem C08_ieee_refuted :
